@@ -2116,6 +2116,7 @@ class TaskPool:
                     self.merge_flows(itask, flow_nums)
                     self._set_prereqs_itask(
                         itask, valid_prereqs, valid_xtrigs, set_all)
+                    self.data_store_mgr.delta_task_prerequisite(itask)
                 else:
                     # Outputs (may be empty list)
                     # Spawn as if seq xtrig of parentless task was satisfied,
